@@ -15,10 +15,13 @@ func init() {
 // H07_seq: Next/Advance call sequences on one postings list with exclusions, detail flags, chunk modes,
 // general and single-hit encodings, and preallocated (reused) list / iterator objects.
 func H07_seq() {
-	n := 1 + vChoice("N", vParam("maxN", 3))
+	n := vParam("fixN", 0)
+	if n == 0 {
+		n = 1 + vChoice("N", vParam("maxN", 3))
+	}
 	cfg := gCfg{prefix: "", idBase: "d", nDocs: n, wide: -1, noFx: true,
 		fields: []gField{
-			{name: "f", terms: []string{"a"}, tv: true, maxLocs: vParam("maxLocs", 1), always: true},
+			{name: "f", terms: []string{"a"}, tv: true, maxLocs: vParam("maxLocs", 1), always: true, allTerm: vParam("allHits", 0) == 1},
 			{name: "g", terms: []string{"b"}, always: true, allTerm: true, fixFreq: true},
 		}}
 	docs, sp := vGenBatch(cfg)
@@ -38,7 +41,7 @@ func H07_seq() {
 	// exclusion set
 	var except *roaring.Bitmap
 	excl := make([]bool, n)
-	if !vBool("exceptNil") {
+	if vParam("exceptNil", 0) == 0 && !vBool("exceptNil") {
 		except = roaring.New()
 		for d := 0; d < n; d++ {
 			if vBool(fmt.Sprint("ex", d)) {
@@ -53,7 +56,10 @@ func H07_seq() {
 			live = append(live, h)
 		}
 	}
-	incF, incN, incL := vBool("incFreq"), vBool("incNorm"), vBool("incLocs")
+	incF, incN, incL := true, true, true
+	if vParam("allFlags", 0) == 0 {
+		incF, incN, incL = vBool("incFreq"), vBool("incNorm"), vBool("incLocs")
+	}
 	dict, err := seg.Dictionary("f")
 	vAssert(err == nil, "dict")
 	var prePL segment.PostingsList
